@@ -195,8 +195,11 @@ def external_diff_render(cmd, a, b):
         status = p.returncode
         output = output.decode('utf8', errors='surrogatepass')
         r = re.compile(r"^\\ No newline at end of file\n?", flags=re.M)
-        output, n = r.subn("", output)
-        assert n <= 2, 'unexpected output from external diff renderer'
+        stripped, n = r.subn("", output)
+        if n <= 2:
+            output = stripped
+        # (more than two: the text itself contains such lines, which the
+        # tool prints without any prefix in word-diff mode; leave it all in)
     finally:
         shutil.rmtree(td)
     return output, status
